@@ -1,7 +1,7 @@
 (* C17 - The hard-link resolver neither loses nor duplicates entries.
    Property theorems only; each is closed by [exact] of a lemma of Entry/LinksProofs.v. *)
 From Coq Require Import List ZArith NArith Bool Permutation.
-From LA Require Import Base.Val Gen.Defines Entry.LinksDefs Entry.LinksProofs.
+From LA Require Import Base.Val Gen.Defines Entry.LinksDefs Entry.LinksProofs Entry.LinksSpec.
 Import ListNotations.
 Local Open Scope N_scope.
 
@@ -66,6 +66,36 @@ Theorem C17_newcpio_marking : forall t e,
   end.
 Proof. exact newcpio_marking. Qed.
 Print Assumptions C17_newcpio_marking.
+
+(* Refinement of the bucketed, growing hash table to a per-key counter: under the tar and mtree
+   strategies, for EVERY sequence of pushes (any interleaving of any number of groups, restarts
+   after completion, link counts that never complete, wrap-around mod 2^32) and for every key
+   (dev, ino) simultaneously, the outputs for the entries of that key are exactly what [key_spec]
+   computes from the history of that key alone, and the table abstracts to the spec's state.
+   [Good] = every entry sits in the bucket its hash selects and no key occurs twice. *)
+Theorem C17_tarlike_refines_key_spec : forall es t unset t' os,
+  Good t -> tarlike t unset -> push_all t es = (t', os) ->
+  Good t' /\ tarlike t' unset /\ length os = length es /\
+  forall d i,
+    outs_for d i es os =
+      map (fun o => (Some o, None)) (fst (key_spec unset (abs_k t d i) (filter (same_key d i) es))) /\
+    abs_k t' d i = snd (key_spec unset (abs_k t d i) (filter (same_key d i) es)).
+Proof. exact tarlike_refines. Qed.
+Print Assumptions C17_tarlike_refines_key_spec.
+
+Theorem C17_init_good : forall strat, Good (init_table strat) /\ forall d i, abs_k (init_table strat) d i = None.
+Proof. intros strat. split; [exact (init_Good strat)|exact (init_abs strat)]. Qed.
+Print Assumptions C17_init_good.
+
+(* the statement's second sentence, on the specification: a group of n entries sharing (dev, ino),
+   the first announcing link count n: exactly the first carries the body, each of the others comes
+   out as a hard link to the first pathname, and the key is free again afterwards *)
+Theorem C17_group_marking : forall unset e1 (rest : list lentry),
+  is_passthrough e1 = false -> Forall (fun e => is_passthrough e = false) rest ->
+  enlink e1 = N.of_nat (S (length rest)) -> enlink e1 < two32 ->
+  key_spec unset None (e1 :: rest) = (e1 :: marked unset (epath e1) rest, None).
+Proof. exact group_marking. Qed.
+Print Assumptions C17_group_marking.
 
 (* non-vacuity: a concrete interleaved run meets the hypotheses and really defers / marks entries *)
 Definition ex_e (id : Z) (ino nl : N) (p : N) : lentry :=
